@@ -65,6 +65,7 @@ var c02Strings = []string{`""`, `"a"`, `"hello"`, `"é"`, `"é"`, `"😀"`, `"\u
 type docGen struct {
 	r     *rand.Rand
 	noise int // 0..100: how often to deviate from what the type expects
+	nulls int // 0..100: how often a value is null (0 = the default of one in twelve)
 }
 
 func (d *docGen) ws() string {
@@ -116,7 +117,11 @@ func (d *docGen) forType(t reflect.Type, depth int) string {
 	if d.r.Intn(100) < d.noise || depth < 0 {
 		return d.any(2)
 	}
-	if d.r.Intn(12) == 0 {
+	if d.nulls > 0 {
+		if d.r.Intn(100) < d.nulls {
+			return "null"
+		}
+	} else if d.r.Intn(12) == 0 {
 		return "null"
 	}
 	switch t.Kind() {
